@@ -182,10 +182,14 @@ def pDocOrFrag (fuel : Nat) : P (Option Doc × Option Items) := fun ts => match 
   | "FRG" :: ts => (pFrag fuel ts).map fun (is, ts) => ((none, some is), ts)
   | _ => (pOptDoc fuel ts).map fun (d, ts) => ((d, none), ts)
 
-/-- implementation result: `OK <tree>` or `ER <display>` -/
-def pResult (fuel : Nat) : P (Except Name Elem) := fun ts => match ts with
-  | "OK" :: ts => (pElem fuel ts).map fun (e, ts) => (.ok e, ts)
-  | "ER" :: ts => (pName ts).map fun (m, ts) => (.error m, ts)
+/-- implementation result: `OK <tree>` or `ER <display> <carried>` (`carried`: what the error value carries, read off
+the public enum by the harness) -/
+def pResult (fuel : Nat) : P (Except Name Elem × Name) := fun ts => match ts with
+  | "OK" :: ts => (pElem fuel ts).map fun (e, ts) => ((.ok e, []), ts)
+  | "ER" :: ts => do
+    let (m, ts) ← pName ts
+    let (c, ts) ← pName ts
+    pure ((.error m, c), ts)
   | _ => none
 
 /-- `OP textIdent attrPrefix derive sort` -/
